@@ -409,6 +409,25 @@ def r7_string_bytes(run, F):
     run.require(n >= 3, "generator: StringLiteral arms not found (%d)" % n)
 
 
+def r8_printed_nul(run, F):
+    """`\\0` in a printed string: text that is not snprintf-safe (is_snprintf_safe says so for `%` and NUL) is inserted through
+    the `%.*s` specifier, whose precision is a maximum -- snprintf stops at the first NUL, so the rest of the literal is lost."""
+    safe = F.body("alpha::generator::is_snprintf_safe")
+    m = hirq.find_match(safe, min_arms=2)
+    nul_unsafe = False
+    for a in m["arms"]:
+        lits = [x.get("v") for x in walk(a["pat"]) if x.get("k") == "Lit"]
+        body = hirq.unwrap_trivial(a["body"])
+        if 0 in lits and body.get("k") == "Lit" and body.get("v") is False:
+            nul_unsafe = True
+    fb = [b for p, b in F.lib.bodies.items() if p.endswith("FormatBuffer::add_user_text") or p.endswith("{FormatBuffer}::add_user_text")]
+    run.require(len(fb) == 1, "FormatBuffer::add_user_text not found")
+    specs = [hirq.unwrap_trivial(c["a"][0]).get("v") for c in hirq.calls(fb[0]["hir"]) if (hirq.callee(c) or "").endswith("add_specifier") and c.get("a")]
+    run.ob("R8-PRINTED-NUL", "text with NUL", not (nul_unsafe and specs == ["%.*s"]), F.where(fb[0]),
+           "NUL bytes are routed to the fallback (is_snprintf_safe(0) = false: %s) and the fallback prints with %s: everything after a `\\0` in a "
+           "printed string is dropped" % (nul_unsafe, specs))
+
+
 def check(run):
     F = run.facts("B")
     A = r1_tables(run, F)
@@ -420,3 +439,4 @@ def check(run):
     r5_linter(run, F)
     r6_generator(run, F)
     r7_string_bytes(run, F)
+    r8_printed_nul(run, F)
